@@ -154,6 +154,14 @@ class Hasher(Pickler):
 
     dispatch[type(set())] = save_set
 
+    def save_frozenset(self, set_items):
+        # same as for sets: the iteration order of a frozenset depends on the
+        # hash seed of the process. Keep the digest distinct from the one of
+        # the set with the same items.
+        Pickler.save(self, _MyHash("frozenset", _ConsistentSet(set_items)))
+
+    dispatch[type(frozenset())] = save_frozenset
+
 
 class NumpyHasher(Hasher):
     """Special case the hasher for when numpy is loaded."""
